@@ -197,6 +197,32 @@ def analyse(repo: Repo, rep: Report, fname: str, store_cats: frozenset, qr_table
                 return outs
         return [((delta, cats, pend_failed, fields, in_loop), labels)]
 
+    # once the N announced sub-operations are done the operation is over: whatever the handler does afterwards (a
+    # further yield, an exception in its clean-up code) must not reach a response - the "all complete -> leave the
+    # loop" test comes before anything in the iteration that can send
+    done_tests = [n for n in cfg.nodes if n.kind == "test" and isinstance(n.ast, ast.If) and _sr_index(getattr(n.ast.test, "left", None)) == 0 and isinstance(n.ast.test, ast.Compare) and isinstance(n.ast.test.ops[0], (ast.LtE, ast.Lt, ast.Eq)) and any(isinstance(b, ast.Break) for b in n.ast.body) and any(n.ast is x for x in ast.walk(loop.ast))]
+    rep.need(len(done_tests) >= 1, f"{fq}: the 'all sub-operations complete' test of the result loop was not found")
+    loop_sends = [n for n in cfg.nodes if n.kind == "stmt" and any(n.ast is x for x in ast.walk(loop.ast)) and any((dotted(c.func) or "").endswith("dimse.send_msg") for c in calls_at(n))]
+    undominated = [n for n in loop_sends if not any(cfg.dominates(t, n) for t in done_tests)]
+    rep.check(not undominated, "final-status", fq, undominated[0].ast if undominated else "the completion test precedes every response of an iteration", "a response can be sent from an iteration of the result loop without the 'all sub-operations complete' test having been passed: when the handler raises (or yields again) after the last announced sub-operation, the operation is answered with the handler-failure status although completed = N and nothing failed - the final status no longer follows the counters", mod=mod, node=undominated[0].ast if undominated else loop.ast)
+    # the announced number of sub-operations is an unsigned 16-bit counter: every value 0 .. 65535 is legal and
+    # must be served; the only refusable announcements are those the counters cannot hold
+    n_lim = 0
+    for i_ in [i_ for i_ in walk_no_nested(fn) if isinstance(i_, ast.If) and isinstance(i_.test, (ast.Compare, ast.BoolOp))]:
+        cmps = [c_ for c_ in ast.walk(i_.test) if isinstance(c_, ast.Compare) and len(c_.ops) == 1 and ((norm(c_.left) == "nr_suboperations" and isinstance(c_.comparators[0], ast.Constant)) or (norm(c_.comparators[0]) == "nr_suboperations" and isinstance(c_.left, ast.Constant)))]
+        cmps = [c_ for c_ in cmps if isinstance((c_.comparators[0] if isinstance(c_.comparators[0], ast.Constant) else c_.left).value, int) and (c_.comparators[0] if isinstance(c_.comparators[0], ast.Constant) else c_.left).value > 255]
+        if not cmps or not any(isinstance(x, ast.Return) for b_ in i_.body for x in ast.walk(b_)):
+            continue
+        for c_ in cmps:
+            n_lim += 1
+            expr = ast.Expression(body=ast.fix_missing_locations(ast.parse(ast.unparse(c_), mode="eval").body))
+
+            def holds(v, expr=expr):
+                return bool(eval(compile(expr, "<limit>", "eval"), {"__builtins__": {}}, {"nr_suboperations": v}))  # a comparison of a name with a literal
+
+            okl = not holds(65535) and not holds(0) and not holds(1) and holds(65536)
+            rep.check(okl, "final-status", fq, i_, f"`{norm(c_)}` refuses an announcement of 65535 sub-operations: {holds(65535)}, of 65536: {holds(65536)} - every count the 16-bit counters can hold (0 .. 65535) must be served with Pending responses and counters, only larger ones may be refused", mod=mod, node=c_)
+    rep.counters[f"{fname}: announced-count limit tests"] = n_lim
     init = ((0, 0, 0, 0), None, False, frozenset(), False)
     ins, pred = typestate(cfg, init, transfer)
     rep.floor(f"{fname}: send sites visited", n_sends[0], 8)
